@@ -52,6 +52,34 @@ CHECKS = {
     ),
 }
 
+CHECKS["C04"] = dict(
+    engine="pysym",
+    category="model_checking",
+    text="The real PackedEncoder.generate runs under pysym with symbolic field ids (all orders through a forking sort), "
+         "symbolic integer widths 1..64, symbolic enum maxima below 2^32 and an arbitrary symbolic encoder pre-state; on "
+         "every path z3 proves that the leaves are the reference leaves in ascending-id order, start at bit 0 and tile "
+         "without gaps with width = wire width, and that signal options sit on equally named leaves only. One inductive "
+         "step from an arbitrary encoder state covers every generate() history.",
+    design_ref="DESIGN.md §4 C04",
+    note="Trusted: z3, pysym proxies, the libm log2 contract (checked concretely on each run for k<=47), layoutref.py "
+         "(reference flattening written from the property). Bound: enumerated skeleton shapes (<= 8 leaves, nesting <= 3); "
+         "arrays of structs only with unrolling.",
+    technique="symbolic execution of the real layout code with symbolic ids/widths/enum maxima/pre-state + SMT validity",
+)
+CHECKS["C09"] = dict(
+    engine="pysym",
+    category="model_checking",
+    text="The real Verifier (general rules, then with fcp_dbc / fcp_can_c register_checks) runs under pysym on trees "
+         "whose every name is an opaque symbolic atom and whose enumerator values, frame ids and widths are symbolic; "
+         "for every feasible path z3 decides verdict <=> specification (both directions in one validity query), for "
+         "several declaration orders. Over-strict and over-lax rules show up as models.",
+    design_ref="DESIGN.md §4 C09",
+    note="Trusted: z3, pysym atoms (only equality observable), the six-clause specification written in z3 from the "
+         "property text. Bound: skeleton trees up to 3 structs x 3 fields, 2 enums x 3 enumerators, 5 bindings, 2 "
+         "services, 3 devices. An exception escaping verify counts as a violation for well-formed trees.",
+    technique="symbolic execution of the real verifier on trees with symbolic names/ids/values + SMT equivalence with the spec",
+)
+
 NOT_APPLICABLE = {
     "C07": "Subject is the Lark Earley parser with a dynamic regex lexer over all texts: it cannot be executed "
            "symbolically by CrossHair or by the proxy engine within reach (DESIGN.md §6); grammar-based generation would "
